@@ -233,10 +233,62 @@ def gen_faults(rng, nlines, tool="btcdeb", interactive=True, dataset=False):
     return fs
 
 
+def mutate_spend(rng, scn):
+    """structure-aware damage to the transactions of a spend session (still well-formed hex): wrong output index,
+    no inputs, no outputs, an extra input, swapped transactions, a witness dropped or added"""
+    from . import tx as T
+    sp = scn.get("spend")
+    if not sp:
+        return
+    if "dataset" in sp:
+        fl = session.dataset_files(sp["dataset"])
+        try:
+            sp = {"tx": fl[0]["content"].strip(), "txin": fl[1]["content"].strip()}
+        except Exception:
+            return
+    try:
+        tx = T.Tx.parse(bytes.fromhex(sp["tx"]))
+        txin = T.Tx.parse(bytes.fromhex(sp["txin"]))
+    except ValueError:
+        return
+    k = rng.below(10)
+    if k == 0 and tx.vin:
+        tx.vin[0].prev_n = rng.choice([len(txin.vout), len(txin.vout) + 1, 255, 0xffffffff])
+    elif k == 1:
+        tx.vin = []
+    elif k == 2:
+        txin.vout = []
+    elif k == 3:
+        tx.vout = []
+    elif k == 4:
+        tx.vin.append(T.TxIn(rng.bytes(32), 0, b"", 0xffffffff, [b"\x01"] if tx.has_witness() else None))
+    elif k == 5:
+        tx, txin = txin, tx
+    elif k == 6 and tx.vin:
+        tx.vin[0].witness = []
+    elif k == 7 and tx.vin:
+        tx.vin[0].witness = (tx.vin[0].witness or []) + [rng.bytes(rng.choice([0, 1, 32, 33, 65]))]
+    elif k == 8 and tx.vin and tx.vin[0].witness:
+        i = rng.below(len(tx.vin[0].witness))
+        tx.vin[0].witness[i] = tx.vin[0].witness[i][:rng.below(len(tx.vin[0].witness[i]) + 1)]
+    else:
+        txin.vout = txin.vout + txin.vout
+    new = {"tx": tx.ser().hex(), "txin": txin.ser().hex()}
+    if rng.chance(25):
+        new["select"] = rng.choice([0, 1, 2, 5, -1])
+    if rng.chance(15):
+        new["tx"] = rng.choice(["0.001:", "1,2:", "0.5,0.5,0.5:", "x:", ":"]) + new["tx"]
+    scn["spend"] = new
+    scn["script"] = None
+    scn["mutated_spend"] = True
+
+
 def gen_btcdeb_interactive(rng):
     scn = workloads.session_scenario(rng, purpose="swarm")
     scn["tool"] = "btcdeb"
     scn["observe"] = False
+    if scn.get("spend") and rng.chance(25):
+        mutate_spend(rng, scn)
     if scn.get("script") is not None and rng.chance(40):
         toks = G.failing_op(rng) if rng.chance(50) else G.throwing_op(rng)
         workloads.inject_ops(scn, rng, toks)
@@ -250,7 +302,8 @@ def gen_btcdeb_interactive(rng):
     if rng.chance(8):
         # argument / option mutations as workload
         scn["extra_argv"] = [rng.choice(["--select=5", "--select=-1", "--select=999999999999", "--tx=zz", "--txin=00", "--tx=0.1:00", "--tx=1,2", "--tx=:",
-                                         "--modify-flags=+NOSUCH", "--modify-flags=P2SH", "--modify-flags=" + "-P2SH," * 40, "--pretend-valid=a", "--pretend-valid=:",
+                                         "--modify-flags=+NOSUCH", "--modify-flags=P2SH", "--modify-flags=" + "-P2SH," * 40, "--modify-flags=+" + "A" * rng.choice([126, 127, 128, 129, 300]),
+                                         "--modify-flags=-P2SH,+" + "B" * 200, "--modify-flags=", "--modify-flags=,", "--modify-flags=+", "--pretend-valid=a", "--pretend-valid=:",
                                          "--pretend-valid=a:b:c", "--dataset", "--dataset=nosuch", "--debug=", "--debug=,,", "-X", "--nosuch", "-"])]
     return scn
 
@@ -258,7 +311,8 @@ def gen_btcdeb_interactive(rng):
 def gen_tap(rng):
     argv = []
     if rng.chance(15):
-        argv.append(rng.choice(["-q", "--version", "-h", "--addrprefix=tb", "-p", "--addrprefix=", "--sig=zz", "--sig=" + "11" * 64, "--privkey=" + "11" * 32]))
+        argv.append(rng.choice(["-q", "--version", "-h", "--addrprefix=tb", "-p", "--addrprefix=", "--addrprefix=TB", "--addrprefix=b1", "--addrprefix=" + "x" * 90,
+                                "--sig=zz", "--sig=" + "11" * 64, "--privkey=" + "11" * 32]))
     key = rng.weighted([(6, GOOD_XONLY), (1, "5be2a9a6cbdb0e1eebc2c2c1ba6a1f7d2b4b1f3c3a1a5d0c6f5e8f1e2d3c4b5a"), (1, adversarial_arg(rng))])
     nscripts = rng.weighted([(5, rng.range(1, 4)), (2, rng.range(5, 9)), (1, 0), (1, 1025)])
     argv.append(key)
@@ -295,7 +349,8 @@ def gen_tap2(rng):
     scn = {"tool": "tap", "tap2": True, "ikey": spend.pub(ik)[1].hex(), "scripts": scripts, "sched": [], "stack": [], "env": {},
            "vout": rng.weighted([(4, 0), (3, 1), (2, 2)]), "extra_outputs": rng.range(0, 2),
            "mode": rng.choice(["keypath", "script", "script"]), "spend_index": rng.below(n), "spend_args": [rng.choice(["%SIG%", "02", "0x"]) for _ in range(rng.below(3))],
-           "sig": rng.choice([None, None, "11" * 64, "22" * 65]), "tty2": [rng.below(2), rng.below(2)], "prefix": rng.choice([None, None, "tb", "bcrt"])}
+           "sig": rng.choice([None, None, "11" * 64, "22" * 65]), "tty2": [rng.below(2), rng.below(2)], "prefix": rng.choice([None, None, "tb", "bcrt", "TB", ""]),
+           "extra_inputs": rng.weighted([(8, 0), (2, 1)])}
     scn["faults"] = gen_faults(rng, 0, tool="tap", interactive=False)
     return scn
 
@@ -319,6 +374,8 @@ def run_tap2(ctx, scn, ev):
     fund = T.Tx(2, [T.TxIn(b"\x77" * 32, 0, b"\x51", 0xfffffffe)], outs, 0)
     vout = min(scn["vout"], len(outs) - 1)
     tx = T.Tx(2, [T.TxIn(fund.txid(), vout, b"", 0xffffffff)], [T.TxOut(90000, bytes([0x00, 0x14]) + b"\x42" * 20)], 0)
+    for j in range(scn.get("extra_inputs", 0)):
+        tx.vin.append(T.TxIn(bytes([0x55 + j]) * 32, 1, b"", 0xffffffff))
     argv = ["--tx=" + tx.ser().hex(), "--txin=" + fund.ser().hex()]
     if scn.get("sig"):
         argv.append("--sig=" + scn["sig"])
@@ -361,6 +418,8 @@ def gen_btcdeb_noninteractive(rng):
     scn = workloads.session_scenario(rng, purpose="swarm")
     scn["tool"] = "btcdeb"
     scn["sched"] = []
+    if scn.get("spend") and rng.chance(25):
+        mutate_spend(rng, scn)
     scn["tty"] = rng.choice([[0, 1], [1, 0], [0, 0]])
     if scn["tty"][0] == 0:
         scn["script_on_stdin"] = True
